@@ -55,6 +55,11 @@ def cases(tier):
             # bare: the message is the single argument itself, keyed by the method name
             styles = ("wrapped", "wrapped", "wrapped", "bare")
         m = draw(spec.methods(U, name="m0", styles=(draw(st.sampled_from(styles)),), xml=False))
+        if m["style"] == "wrapped" and len(m["args"]) >= 2 and draw(st.integers(0, 3)) == 0:
+            # _in_arg_names: some arguments (not only the last one) have another name on the wire
+            k = draw(st.integers(1, len(m["args"])))
+            m["wire"] = {an: "w_" + an for an, _ in m["args"][:k] if draw(st.booleans())} or \
+                {m["args"][0][0]: "w_" + m["args"][0][0]}
         if m["style"] == "bare" and wrappers:
             # with wrapper documents only a simple-typed or array argument has a conformant
             # bare spelling (see ASSUMPTIONS); the reply of a bare method is not wrapped either
